@@ -37,7 +37,14 @@ var allStates = []string{
 	"tc-then-tcp", "garbage", "short", "cut", "ancount", "servfail", "nxdomain", "dup", "error-without-question", "wrong-id-then-tcp-closes", "truncated-wrong-id",
 }
 
-func classOf(state string) string {
+// classOn is the class of a state for an upstream configured with network nw.
+func classOn(state string, nw forward.Network) string {
+	if state == "tc-then-tcp" && nw == forward.NetworkUDP {
+		// A UDP-only upstream's truncated reply is the answer: it is passed
+		// on as it is.
+		return "valid-tc"
+	}
+
 	switch state {
 	case "up", "tc-then-tcp", "dup":
 		return "valid"
@@ -62,6 +69,7 @@ type upstream struct {
 	idx   int
 	main  bool
 	addr  netip.AddrPort
+	nw    forward.Network
 	mu    sync.Mutex
 	state string
 	// got logs the names this upstream received, with the transport.
@@ -86,10 +94,21 @@ func (u *upstream) String() string {
 		k = "main"
 	}
 
+	if u.nw != forward.NetworkAny {
+		return fmt.Sprintf("%s%d/%s", k, u.idx, u.nw)
+	}
+
 	return fmt.Sprintf("%s%d", k, u.idx)
 }
 
+func (u *upstream) class() string { return classOn(u.getState(), u.nw) }
+
 func (u *upstream) setState(s string) {
+	if s == "refuse" && u.nw == forward.NetworkTCP {
+		// An upstream cannot note the receipt of what it refuses, and a
+		// TCP-only one is sent nothing else: it closes after reading instead.
+		s = "close"
+	}
 	u.mu.Lock()
 	u.state = s
 	u.mu.Unlock()
@@ -122,6 +141,38 @@ func (u *upstream) received(name string) (n int) {
 	}
 
 	return n
+}
+
+// wantFrom is the outcome a query for name has when this upstream's reply is
+// the answer.
+func (u *upstream) wantFrom(name string) string {
+	tag := u.idx
+	if !u.main {
+		tag += 100
+	}
+	switch st := u.getState(); st {
+	case "servfail":
+		return "rcode2"
+	case "nxdomain":
+		return "rcode3"
+	case "ancount":
+		return "rcode0"
+	case "tc-then-tcp":
+		// A UDP-only upstream's truncated reply is passed on as it is,
+		// unless something stale in the socket made the resolver go to TCP
+		// all the same.
+		u.mu.Lock()
+		defer u.mu.Unlock()
+		for _, g := range u.got {
+			if g == strings.ToLower(name)+"/tcp" {
+				return fmt.Sprintf("answer-from-%d", tag)
+			}
+		}
+
+		return "rcode0-tc"
+	}
+
+	return fmt.Sprintf("answer-from-%d", tag)
 }
 
 // reply builds the reply bytes for req over tr ("udp"/"tcp"); nil = no reply.
@@ -467,17 +518,21 @@ func run(s *kernel.Sim, prop, cfg string) {
 	}
 	backoff := kernel.Pick(t, []time.Duration{10 * time.Second, time.Second, time.Minute, 0}, "backoff")
 
+	// Most upstreams take both transports, some only one.
+	networks := []forward.Network{forward.NetworkAny, forward.NetworkAny, forward.NetworkAny, forward.NetworkUDP, forward.NetworkTCP}
 	var mains, fbs, all []*upstream
 	var mainConf, fbConf []*forward.UpstreamPlainConfig
 	for i := 0; i < nMain; i++ {
 		u := &upstream{idx: i, main: true, addr: netip.MustParseAddrPort(fmt.Sprintf("198.51.100.%d:53", 10+i)), state: "up", seg: rand.New(rand.NewPCG(uint64(t.Choose(1<<30, "upstream-seed")), uint64(i)))}
+		u.nw = kernel.Pick(t, networks, "network")
 		mains = append(mains, u)
-		mainConf = append(mainConf, &forward.UpstreamPlainConfig{Network: forward.NetworkAny, Address: u.addr, Timeout: time.Second})
+		mainConf = append(mainConf, &forward.UpstreamPlainConfig{Network: u.nw, Address: u.addr, Timeout: time.Second})
 	}
 	for i := 0; i < nFB; i++ {
 		u := &upstream{idx: i, addr: netip.MustParseAddrPort(fmt.Sprintf("198.51.100.%d:53", 50+i)), state: "up", seg: rand.New(rand.NewPCG(uint64(t.Choose(1<<30, "upstream-seed")), uint64(i)))}
+		u.nw = kernel.Pick(t, networks, "network")
 		fbs = append(fbs, u)
-		fbConf = append(fbConf, &forward.UpstreamPlainConfig{Network: forward.NetworkAny, Address: u.addr, Timeout: time.Second})
+		fbConf = append(fbConf, &forward.UpstreamPlainConfig{Network: u.nw, Address: u.addr, Timeout: time.Second})
 	}
 	all = append(append(all, mains...), fbs...)
 	byAddr := map[string]*upstream{}
@@ -591,7 +646,7 @@ func run(s *kernel.Sim, prop, cfg string) {
 				return false
 			}
 
-			if c := classOf(m.getState()); c == "valid" || c == "valid-empty" {
+			if c := m.class(); c == "valid" || c == "valid-empty" || c == "valid-tc" {
 				if !active[m] {
 					s.Probe("main-recovered")
 				}
@@ -604,7 +659,7 @@ func run(s *kernel.Sim, prop, cfg string) {
 				failedLo[m] = m.lastProbe
 				m.mu.Unlock()
 				failedHi[m] = end
-				s.Fault("probe-failed-" + classOf(m.getState()))
+				s.Fault("probe-failed-" + m.class())
 			}
 		}
 
@@ -772,6 +827,9 @@ func run(s *kernel.Sim, prop, cfg string) {
 			if serr == nil && len(w.msgs) == 1 {
 				r := w.msgs[0]
 				outcome = fmt.Sprintf("rcode%d", r.Rcode)
+				if r.Truncated {
+					outcome += "-tc"
+				}
 				if len(r.Answer) == 1 {
 					if a, ok := r.Answer[0].(*dns.A); ok {
 						outcome = fmt.Sprintf("answer-from-%d", a.A.To4()[1])
@@ -834,14 +892,14 @@ func run(s *kernel.Sim, prop, cfg string) {
 				}
 				f := gotFBs[0]
 				s.Probe("fallback-used")
-				switch classOf(f.getState()) {
+				switch f.class() {
 				case "valid":
 					if outcome != fmt.Sprintf("answer-from-%d", 100+f.idx) {
 						s.Failf("C17/fallback-answer-lost", "fallback replied but the client did not get its answer ("+why+")",
 							"fallback %s state %s, outcome %s", f, f.getState(), outcome)
 					}
-				case "valid-rcode", "valid-empty":
-					want := map[string]string{"servfail": "rcode2", "nxdomain": "rcode3", "ancount": "rcode0"}[f.getState()]
+				case "valid-rcode", "valid-empty", "valid-tc":
+					want := f.wantFrom(name)
 					if outcome != want {
 						s.Failf("C17/fallback-answer-lost", "fallback replied but the client did not get its answer ("+why+")",
 							"fallback %s state %s, outcome %s", f, f.getState(), outcome)
@@ -872,7 +930,7 @@ func run(s *kernel.Sim, prop, cfg string) {
 			}
 
 			m := gotMains[0]
-			switch classOf(m.getState()) {
+			switch m.class() {
 			case "valid":
 				if outcome != fmt.Sprintf("answer-from-%d", m.idx) || len(gotFBs) != 0 {
 					s.Failf("C17/main-answer-lost", "main upstream replied but the client did not get its answer",
@@ -881,8 +939,8 @@ func run(s *kernel.Sim, prop, cfg string) {
 					return false
 				}
 				s.Probe("main-answered")
-			case "valid-rcode", "valid-empty":
-				want := map[string]string{"servfail": "rcode2", "nxdomain": "rcode3", "ancount": "rcode0"}[m.getState()]
+			case "valid-rcode", "valid-empty", "valid-tc":
+				want := m.wantFrom(name)
 				if outcome != want || len(gotFBs) != 0 {
 					s.Failf("C17/main-answer-lost", "main upstream replied but the client did not get its answer",
 						"main %s state %s: outcome %s, fallbacks tried %v", m, m.getState(), outcome, gotFBs)
